@@ -1338,6 +1338,62 @@ def single_pops(ctx):
                         {"function": f.qual}, detail={"function": f.qual, "evidence": why})
 
 
+# leaving a nested mode by popping its current node returns to the mode whose current node lies right below it
+NESTED_MODE = {"inHeadNoscript": "inHead"}
+
+
+def mode_entry_evidence(ctx):
+    """C03.23: the handlers listed in MODE_CURRENT_NODE pop once *because the insertion mode fixes the current node*.  That belief
+    is an obligation on every statement that enters such a mode: (a) the statement is preceded on every path by the insertion of
+    the element, nothing popped in between; or (b) it leaves the nested mode by popping that mode's current node (noscript ->
+    head).  A table-driven entry (reset the insertion mode appropriately) looks at names on the stack -- in the fragment case at
+    the *context* name, with nothing but html on the stack -- and so may never name such a mode."""
+    r = ctx.r
+    pm = model(ctx)
+    cls_key = {c.name: k for k, c in pm.phases.items()}
+    inv = {}
+    for qual, reason in MODE_CURRENT_NODE.items():
+        k = cls_key.get(qual.split(".")[0])
+        r.idiom("C03.23", k is not None, "mode-of::" + qual, pm.phases_where,
+                "%s (listed as relying on a mode invariant) is not a method of a registered phase" % qual)
+        if k is not None:
+            inv.setdefault(k, []).append(qual)
+    n_lit = n_tab = 0
+    ins = lambda n: any((attr_chain(c.func) or [""])[-1] in ("insertElement", "insertHtmlElement", "insertElementNormal", "insertElementTable")  # noqa: E731
+                        for c in node_calls(n))
+    is_pop = lambda n: any((attr_chain(c.func) or [""])[-2:] == ["openElements", "pop"] for c in node_calls(n))  # noqa: E731
+    for f, st, k in pm.phase_stores:
+        where = "%s:%d" % (f.module.rel, st.lineno)
+        if k == "<newModes>":
+            n_tab += 1
+            for ctx_name, mode in sorted(pm.new_modes.items()):
+                r.check("C03.23", mode not in inv, "reset-enters::%s" % ctx_name, where,
+                        "resetting the insertion mode for a %r node enters %r, a mode whose handlers (%s) pop the current node on the belief "
+                        "that it is the element the mode was entered for; in the fragment case the stack holds only html, so the first such "
+                        "handler pops the root and the next `openElements[-1]` raises IndexError" % (
+                            ctx_name, mode, ", ".join(inv.get(mode, []))),
+                        {"context": ctx_name, "mode": mode}, detail={"context": ctx_name, "mode": mode})
+            continue
+        if k not in inv:
+            continue
+        n_lit += 1
+        cfg = CFG(f.node)
+        nds = cfg.locate(st)
+        why = None
+        if nds and not cfg.must_precede(nds, ins):
+            par = cfg.reach_backward(nds, ins)
+            if not [i for i in par if cfg.nodes[i] not in nds and is_pop(cfg.nodes[i]) and not ins(cfg.nodes[i])]:
+                why = "enters the mode right after inserting the element"
+        if why is None and f.cls is not None and NESTED_MODE.get(cls_key.get(f.cls.name)) == k and nds and not cfg.must_precede(nds, is_pop):
+            why = "leaves the nested mode %r by popping its current node" % cls_key.get(f.cls.name)
+        r.check("C03.23", why is not None, "enters::%s::%s" % (f.qual, k), where,
+                "%s enters %r without inserting the element that mode's handlers (%s) pop unconditionally: the first of them pops "
+                "whatever is the current node -- the root html element when nothing else is open" % (f.qual, k, ", ".join(inv[k])),
+                {"function": f.qual, "mode": k}, detail={"function": f.qual, "mode": k, "evidence": why})
+    r.idiom("C03.23", n_lit >= 5 and n_tab >= 1, "mode-entries", pm.phases_where,
+            "expected at least 5 literal entries into current-node modes and the reset table, found %d / %d" % (n_lit, n_tab))
+
+
 def scope_variant_agreement(ctx):
     """C03.21: within one insertion mode an element name is looked up in *one* kind of scope (in cell: td / th in table scope, ...).
     A guard that tests "td in table scope" in front of a helper that closes "td in (default) scope" can be true while the helper
@@ -1477,6 +1533,7 @@ def run(ctx):
     r.rule("C03.20", "a single pop of the stack of open elements has evidence that the current node is not the root", floor=30)
     r.rule("C03.21", "within one insertion mode an element name is looked up in one kind of scope", floor=15)
     r.rule("C03.22", "the DOM back-end calls no minidom method that recurses over the depth of the tree", floor=10)
+    r.rule("C03.23", "every entry into a mode whose handlers pop on the mode's current-node invariant establishes that invariant", floor=20)
     r.rule("C03.6", "every phase has a concrete handler for every token kind and tag name", floor=100)
     constkey(ctx)
     recursion(ctx)
@@ -1498,6 +1555,7 @@ def run(ctx):
     bom_read_and_seek(ctx, "C03.17", "C03.18")
     prescan_exception_flow(ctx)
     single_pops(ctx)
+    mode_entry_evidence(ctx)
     scope_variant_agreement(ctx)
     stdlib_recursion(ctx)
     dispatch_total(ctx)
@@ -1515,6 +1573,9 @@ def mutants():
     return [
         T("single-pop-guard-not-a-scope-test", "html5parser.py", "    def ignoreEndTagTr(self):\n        return not self.tree.elementInScope(\"tr\", variant=\"table\")", "    def ignoreEndTagTr(self):\n        return self.tree.openElements[-1].name == \"html\"", "C03.20"),
         T("closecell-default-scope", "html5parser.py", "        if self.tree.elementInScope(\"td\", variant=\"table\"):\n            self.endTagTableCell(impliedTagToken(\"td\"))", "        if self.tree.elementInScope(\"td\"):\n            self.endTagTableCell(impliedTagToken(\"td\"))", "C03.21"),
+        T("reset-head-context-inhead", "html5parser.py", '            "head": "inBody",', '            "head": "inHead",', "C03.23"),
+        T("noscript-rawtext-no-insert", "html5parser.py", "        else:\n            self.tree.insertElement(token)\n            self.parser.phase = self.parser.phases[\"inHeadNoscript\"]",
+          "        else:\n            self.parser.phase = self.parser.phases[\"inHeadNoscript\"]", "C03.23"),
         T("dom-normalize", "treebuilders/dom.py", "            return base.TreeBuilder.getFragment(self).element", "            fragment = base.TreeBuilder.getFragment(self).element\n            fragment.normalize()\n            return fragment", "C03.22"),
         T("bom-single-read", "_inputstream.py", "        while len(string) < 4:\n            more = self.rawStream.read(4 - len(string))\n            if not more:\n                break\n            string += more\n", "", "C03.18"),
         T("bom-seek-constant", "_inputstream.py", "        encoding = None\n        seek = 0\n        for bom, name in bomDict.items():\n            if string.startswith(bom):\n                encoding = name\n                seek = len(bom)\n                break\n",
